@@ -1,4 +1,4 @@
-HOOK_COMMITS = []
+HOOK_COMMITS = ["37f15b8", "df87741", "8885e82"]
 NOTES = ("Technique family: machine-checked proof in Coq 8.16.1. Every check regenerates coq/Gen from /repo, rebuilds the "
          "Coq development (full .vo), re-extracts the model, rebuilds the Go harness against /repo with -tags verif, and "
          "runs the correspondence + oracle pipeline. See DESIGN.md.")
@@ -138,4 +138,56 @@ CLAIMED = {
          "is re-parsed and un-masked by the extracted oracle."),
    note="Trusted: Coq kernel, translator (constants, opcode predicates, ValidCloseCode), extraction, harness incl. the in-memory transport and the VerifAttach hook (client role after the handshake). Masking keys are an environment input taken from the implementation's wire. UTF-8 validation of text payloads (off by default), the server role and TLS are not modelled. Real sockets and event-loop interleavings are C17's/C01's subject.",
    technique="Coq proof (round-trip law + wire invariant by induction over histories); differential correspondence + extracted parser oracle"),
+ "C01": dict(
+   text=("PARTIAL proof + full correspondence. Coq theorems (5, closed) about the hand-written model of file.go / "
+         "internal/poll_linux.go / io.go (work-list machine; the epoll batch is an input, so all batches, masks and handler "
+         "programs are quantified over): a batch entry for an object without interest dispatches nothing and changes "
+         "nothing (never twice); Close leaves no interest and invokes nothing; every system-call attempt ends in exactly "
+         "one completion or a re-arm; a deferred read reported with IN, HUP or ERR is dispatched by that poll (never zero "
+         "times - FIFO hang-up with only a read interest included); Cancel completes the in-flight read once with the "
+         "cancellation error. The whole-history statement (exactly one callback per started operation, none after Close) "
+         "is the extracted ledger oracle Spec/OpLedger.v, applied to the model's and to the implementation's trace of "
+         "every script (sockets, FIFO read/write ends, regular files; several ready descriptors per batch; handlers that "
+         "re-issue, cancel, close or re-arm their own or another object; peer data/close/RST/hang-up; inline and deferred "
+         "paths); the model is compared with the real loop after every script line (callbacks with error class, byte "
+         "count and depth, Pending(), Dispatched, interest bits, registry membership, the batch itself)."),
+   note=("Trusted: Coq kernel, extraction, harness glue, the kernel environment model (validated by the correspondence run). "
+         "Modelled: File and Conn-as-file objects; listener, packet and AsyncAdapter copies of the logic are not (C02, C13 "
+         "cover the adapter). The induction of the ledger over whole histories is not proved in Coq."),
+   technique="Coq proof of the per-step dispatch lemmas over all batches and handler programs; differential correspondence + extracted exactly-once ledger oracle over histories"),
+ "C03": dict(
+   text=("Coq theorems (4, closed): for every script, every handler program, every poll batch and every peer behaviour - "
+         "registrations that fail included - Pending() = registered read/write interests + armed timers + posted handlers "
+         "not yet run, after every script line (induction over lines and over the work-list machine inside a line: the "
+         "machine never changes the difference). Return values of PollOne/RunOneFor/RunPending (positive count iff a "
+         "handler ran, timeout when nothing was ready, RunPending returns exactly at zero) are decided on the "
+         "implementation's trace by the extracted ledger oracle, which keeps its own count of operations in flight and "
+         "compares it with Pending() after every line; model and implementation are compared after every line."),
+   note=("Trusted: Coq kernel, extraction, harness, kernel environment model. EINTR during the wait is not injected (no "
+         "signal delivery in the harness); the EINTR mapping in io.go is covered only by reading."),
+   technique="Coq proof (conserved quantity by induction over the work-list machine and over script lines); differential correspondence + extracted ledger oracle"),
+ "C04": dict(
+   text=("Coq theorems (8, closed) on the timer part of the loop model (sonic.Timer + internal.Timer + timerfd with an "
+         "explicit clock; batches are inputs): a batch entry fires only if the timer still has its interest and the delay "
+         "of its current schedule has elapsed (never early, stale entries of re-armed timers included); scheduling arms "
+         "now + delay; firing disarms and removes the interest and an entry without interest does nothing (at most once); "
+         "Cancel and Close remove the interest (never after); scheduling while scheduled or closed fails without "
+         "disturbing anything; a closed timer stays closed under Cancel. The implementation is compared with the model "
+         "on scripts with several timers and I/O objects ready in one batch, cancel/close/re-schedule from other "
+         "handlers, repeating timers cancelled from their own callback; the ledger oracle checks callback counts per "
+         "schedule and wall-clock 'never early' on the real trace."),
+   note="Trusted: Coq kernel, extraction, harness, environment model of timerfd (expiry = arm time + delay; readable iff expired). Real-time lateness is not bounded by anything.",
+   technique="Coq proof (per-transition theorems over all batches) + differential correspondence + extracted ledger oracle"),
+ "C14": dict(
+   text=("Coq theorems (4, closed): for every chain script - handler programs made of any number of read/write starts on "
+         "any mix of open pollable objects, any poll batches, peer behaviour, timers, posts, top-level cancels - every "
+         "callback runs at nesting depth <= MaxCallbackDispatch + 1, and after every script line the depth is 0 and "
+         "IO.Dispatched is back where the line found it (invariant over the work-list machine: stack = counted head ++ "
+         "callbacks on the stack with at most one uncounted ++ poller work). PARTIAL: regular files are outside the "
+         "theorem - at the limit their deferral fails in /repo (known finding C14-regular-file-deferral); listener, packet "
+         "and multicast copies of the logic are not modelled. The implementation is compared with the model on chains "
+         "over sockets, FIFOs and regular files (depth of every callback, Dispatched after every line, results of the "
+         "deferred operations)."),
+   note="Trusted: Coq kernel, extraction, harness (nesting counter in the driver), kernel environment model. The theorem excludes runs that exhaust the model's fuel; the run reports fuel exhaustion as a mismatch.",
+   technique="Coq proof (stack-shape invariant by induction over the work-list machine, lifted to all chain scripts); differential correspondence + ledger oracle"),
 }
